@@ -96,8 +96,11 @@ def concatenate(signals, /, axis=0):
     if not isinstance(axis, str) and (axis := operator.index(axis)) < 0:
         axis += signals[0].ndim
 
+    # Equal up to rounding in unit conversions: astropy's default relative tolerance
+    # of 1e-5 would let through rates that drift apart by whole samples within
+    # a piece of 10^5 samples or more.
     ref_sr = signals[0].sample_rate
-    if not all(u.isclose(ref_sr, s.sample_rate) for s in signals):
+    if not all(u.isclose(ref_sr, s.sample_rate, rtol=1e-12) for s in signals):
         raise ValueError("Signals must have the same sample_rate!")
 
     ref_st = None
@@ -126,7 +129,7 @@ def concatenate(signals, /, axis=0):
 
     if isinstance(signals[0], pb.RadioSignal):
         ref_cbw = signals[0].chan_bw
-        if not all(u.isclose(ref_cbw, s.chan_bw) for s in signals):
+        if not all(u.isclose(ref_cbw, s.chan_bw, rtol=1e-12) for s in signals):
             raise ValueError("RadioSignals must have the same chan_bw!")
 
         if axis in {1, "freq"}:
